@@ -975,6 +975,99 @@ def stream_wire(ctx, xcheck):
     xcheck.extend((50, a, mo) for (_, a), mo in list(zip(cases, out))[:4])
 
 
+# ---- transfers are carried out when the data connection arrives: the location is fixed when the command is handled
+DEFER_CASES = [
+    # (login, password, cwd0, verb, arg)
+    ("alice", "a", "/d", "RETR", "g"), ("alice", "a", "/d", "STOR", "new"), ("alice", "a", "/", "LIST", "d"), ("alice", "a", "/d", "MLSD", "."),
+    ("bob", "b", "/d", "RETR", "g"), ("bob", "b", "/x", "RETR", "../f"), ("bob", "b", "/d", "STOR", "e/new"), ("bob", "b", "/x", "LIST", ""),
+    ("carol", "c", "/", "RETR", "g"), ("carol", "c", "/", "APPE", "f"), ("root", "r", "/alice/d", "RETR", "g"), ("root", "r", "/bob", "MLSD", "d"),
+]
+DEFER_BETWEEN = [
+    [("CWD", "/")], [("CWD", "/e")], [("CWD", "/d")], [("CDUP", "")], [("USER", "dave"), ("PASS", "d")], [("USER", "root"), ("PASS", "r")],
+    [("USER", "alice"), ("PASS", "a"), ("CWD", "d")], [("USER", "nobody")], [],
+]
+
+
+def run_deferred(login, password, cwd0, verb, arg, between):
+    """USER/PASS; CWD cwd0; PASV; VERB arg (150); <between>; data connection -> observation (recorded backend calls)"""
+    log = []
+    ob = {"between": []}
+
+    async def main(net):
+        users = [aioftp.User(l, p, base_path=b, home_path=h) for l, p, b, h in WIRE_USERS]
+        server = aioftp.Server(users, path_io_factory=aioftp.MemoryPathIO, wait_future_timeout=5)
+        server.path_io_factory.state = ftpsim.mem_state(WIRE_TREE)
+        server.path_io_factory.factory = rec_factory(log)
+        await server.start("127.0.0.1", ftpsim.PORT)
+        raw = await simnet.Raw.connect(net, server.server_port)
+        await raw.drain_replies()
+        await raw.send("USER " + login)
+        ob["login"] = simnet.final_codes(await raw.send("PASS " + password))
+        ob["cwd0"] = simnet.final_codes(await raw.send("CWD " + cwd0))
+        port = ftpsim.parse_passive(await raw.send("PASV"))
+        mark = len(log)
+        ob["codes"] = simnet.final_codes(await raw.send(f"{verb} {arg}".rstrip()))
+        ob["calls_request"] = log[mark:]
+        for bv, ba in between:
+            ob["between"].append(simnet.final_codes(await raw.send(f"{bv} {ba}".rstrip())))
+        mark = len(log)
+        if port is not None:
+            try:
+                r, w = await net.open_connection("127.0.0.1", port)
+                if verb in ("STOR", "APPE"):
+                    w.write(b"deferred")
+                    w.close()
+                await net.settle()
+                if not w.transport.is_closing():
+                    w.close()
+            except (ConnectionRefusedError, OSError) as e:
+                ob["data_error"] = repr(e)
+        ob["after"] = simnet.final_codes(await raw.drain_replies())
+        ob["calls_worker"] = log[mark:]
+        await server.close()
+
+    try:
+        simnet.run(main)
+    except Exception as e:  # noqa: BLE001 - observation
+        ob["error"] = repr(e)
+    return ob
+
+
+def deferred_oracle(login, cwd0, verb, arg, between, ob):
+    """every path the worker hands to the backend is base_path(user at the command) + normalize(cwd at the command, arg)
+    (or an entry of that directory for LIST/MLSD)"""
+    if "error" in ob:
+        return [("wire-driver-error", ob["error"])]
+    if ob.get("login") != ["230"] or ob.get("cwd0") != ["250"] or ob.get("codes") != ["150"]:
+        return []
+    base = pathlib.PurePosixPath({u[0]: u[2] for u in WIRE_USERS}[login])
+    norm = py_normalize(cwd0, arg)
+    target = str(base.joinpath(*norm) if norm else base)
+    bad = []
+    for name, args in ob["calls_worker"]:
+        for p in args:
+            if p == target or (verb in ("LIST", "MLSD") and name != "list" and str(pathlib.PurePosixPath(p).parent) == target):
+                continue
+            bad.append(("wire-deferred-foreign-path", f"{verb} {arg!r} handled as {login} in {cwd0} addresses {target!r}; after {between} the transfer "
+                        f"calls {name}({p!r})"))
+    return bad
+
+
+def stream_deferred(ctx):
+    cases = [(c, b) for i, c in enumerate(DEFER_CASES) for j, b in enumerate(DEFER_BETWEEN) if ctx.tier == "thorough" or (i + j) % 3 == 0]
+    n150 = 0
+    for (login, password, cwd0, verb, arg), between in cases:
+        ctx.case(("deferred", login, cwd0, verb, arg, repr(between)))
+        ctx.traces_impl += 1
+        ob = run_deferred(login, password, cwd0, verb, arg, between)
+        n150 += ob.get("codes") == ["150"]
+        for key, detail in deferred_oracle(login, cwd0, verb, arg, between, ob)[:1]:
+            report(ctx, f"wire session with a deferred transfer: {detail}",
+                   {"key": key, "deferred": True, "login": login, "password": password, "cwd": cwd0, "verb": verb, "arg": arg, "between": [list(b) for b in between]})
+    ctx.count("deferred_transfer_sessions", len(cases))
+    ctx.count("deferred_transfer_sessions_150", n150)
+
+
 # ---------------------------------------------------------------- known findings
 WITNESSES = [
     # (finding key, flavour, base, cwd, path)
@@ -1067,6 +1160,7 @@ def correspondence(ctx):
         stream_histories(ctx, xcheck)
     if want("wire"):
         stream_wire(ctx, xcheck)
+        stream_deferred(ctx)
     if want("relogin"):
         stream_relogin(ctx, xcheck)
     ok, out = core.vm_crosscheck(EXTRACT, xcheck[:100])
@@ -1108,6 +1202,15 @@ def replay(ctx, data):
         for k, key, detail in problems:
             print("oracle: step", k, key, detail)
         return not problems
+    if r.get("deferred"):
+        between = [tuple(b) for b in r["between"]]
+        ob = run_deferred(r["login"], r["password"], r["cwd"], r["verb"], r["arg"], between)
+        print(r["verb"], r["arg"], "as", r["login"], "in", r["cwd"], "->", ob.get("codes"), "| between", between, "->", ob.get("between"), "| after", ob.get("after"))
+        print("backend calls of the transfer:", ob.get("calls_worker"))
+        bad = deferred_oracle(r["login"], r["cwd"], r["verb"], r["arg"], between, ob)
+        for key, detail in bad:
+            print("oracle:", key, detail)
+        return not bad
     if r.get("wire"):
         events = [(v, a, p.encode() if p is not None else None) for v, a, p in r["events"]]
         obs, tree = run_wire(events)
